@@ -20,7 +20,9 @@ def _alarm(signum, frame):
     raise CaseTimeout()
 
 
-signal.signal(signal.SIGALRM, _alarm)
+# per-case limits count the worker's own CPU time (ITIMER_PROF), so a loaded machine does not turn slow cases into
+# time-outs; a wall-clock limit on the whole worker (impl.py) still bounds blocking hangs
+signal.signal(signal.SIGPROF, _alarm)
 
 # snapshot of every node's next_states at the moment the reward loop starts (harness-side
 # wrapper around the public method; nothing in the repository is changed)
@@ -223,7 +225,7 @@ for _p in sorted(_glob.glob(os.path.join(os.path.dirname(os.path.abspath(__file_
 with open(fin) as f, open(fout, "w") as g:
     for line in f:
         c = json.loads(line)
-        signal.setitimer(signal.ITIMER_REAL, c.get("limit", limit))
+        signal.setitimer(signal.ITIMER_PROF, c.get("limit", limit))
         try:
             r = OPS[c["op"]](c)
         except CaseTimeout:
@@ -231,6 +233,6 @@ with open(fin) as f, open(fout, "w") as g:
         except RecursionError as e:
             r = exc_info(e)
         finally:
-            signal.setitimer(signal.ITIMER_REAL, 0)
+            signal.setitimer(signal.ITIMER_PROF, 0)
         g.write(json.dumps(r) + "\n")
         g.flush()
